@@ -175,6 +175,12 @@ def independent_store(c):
                 if vals.dtype == object:
                     if len(vals) == 0:
                         continue
+                    if len(vals) and vals[0].dtype.name == "float16":  # the graph the store denotes holds float32 (float16 is not a geff dtype)
+                        up = np.empty(len(vals), dtype=object)
+                        for i_, e_ in enumerate(vals):
+                            up[i_] = e_.astype("float32")
+                        vals = up
+                        pnp = dict(pnp, values=up)
                     table, data = my_serialize(list(vals), v.get("dlayout", 0), v["shuffle"])
                     tasks.append((sub, _nm(v, "values"), table))
                     tasks.append((sub, _nm(v, "data"), data))
@@ -213,6 +219,8 @@ def c_elem(a, it):
 def c_sprop(p, it):
     v = p["values"]
     if v.dtype == object:
+        if len(v) and v[0].dtype.name == "float16":  # float16 elements denote float32 values (upcast on write)
+            v = [x.astype("float32") for x in v]
         dt = DTYPE_COQ[dtype_name(v[0].dtype)] if len(v) else "DI64"
         vals = f"(SVar {dt} {clist(list(v), lambda x: c_elem(x, it))})"
     else:
